@@ -33,10 +33,10 @@ def script_entry(nev, allow):
     return st.one_of(*alts)
 
 
-def scripts(nev, allow, max_n=3, max_at=11):
+def scripts(nev, allow, max_n=3, max_at=11, min_at=0):
     if not allow:
         return st.just({})
-    return st.dictionaries(st.integers(0, max_at), st.lists(script_entry(nev, allow), min_size=1, max_size=2), max_size=max_n)
+    return st.dictionaries(st.integers(min_at, max_at), st.lists(script_entry(nev, allow), min_size=1, max_size=2), max_size=max_n)
 
 
 @st.composite
@@ -44,7 +44,9 @@ def abstract_case(draw, spec, cp):
     """cp: case profile dict: max_ops, kinds (weights), scripts allow, start_scripts"""
     nev = len([e for e in spec['events'] if not e.get('kleene')])
     n = draw(st.integers(1, cp.get('max_ops', 30)))
-    ops = [dict(op='S', val=draw(valuation()), scripts=draw(scripts(nev, cp.get('start_scripts'))))]
+    # callback 0 of start() is the root machine's own on_entry: excluded by construction (known finding
+    # submission_in_root_entry_during_start_dropped, backmp11) so that the search continues behind it
+    ops = [dict(op='S', val=draw(valuation()), scripts=draw(scripts(nev, cp.get('start_scripts'), min_at=1)))]
     kinds = cp.get('kinds', ['P'])
     for _ in range(n):
         k = draw(st.sampled_from(kinds))
@@ -110,7 +112,7 @@ class Exec:
                 c['payload'] = payload
             if c.get('scripts'):
                 sc = {}
-                for k, lst in c['scripts'].items():
+                for k, lst in sorted(c['scripts'].items(), key=lambda kv: int(kv[0])):
                     out = []
                     for e in lst:
                         if e[0] == 'p':
